@@ -53,8 +53,10 @@ func allScenarios() []*scenario {
 			Why: "two-table Addition ‖ Add: multi-table transaction atomicity"},
 		{Name: "S9", Init: "two", Procs: []procSpec{PNoAuto(step{Kind: "compactall", Expiry: exp}), PNoAuto(add("log1"))}, Preempt: -1,
 			Why: "CompactAll(expiry) ‖ Add(log): expiry with a concurrent commit"},
-		{Name: "S10", Init: "empty", Procs: []procSpec{PNoAuto(add("name:a")), PNoAuto(add("name:a/b"))}, Preempt: -1,
-			Why: "Add(a) ‖ Add(a/b) with name checking: exactly one is rejected"},
+		{Name: "S10", Init: "empty", Procs: []procSpec{PNoAuto(add("name:a")), PNoAuto(add("name:a/b"), add("name:a/b"))}, Preempt: -1,
+			Why: "Add(a) ‖ Add(a/b);retry with name checking: the retry is rejected by the name check once a is committed"},
+		{Name: "S18-reject", Init: "one", Procs: []procSpec{P(add("name:refs/x/y"), add("b")), P(add("c"))}, Preempt: -1,
+			Why: "a transaction rejected by the name check (refs/x exists) ‖ Add: a rejected transaction leaves no effect and no residue"},
 		{Name: "S12", Init: "two", Procs: []procSpec{PNoAuto(add("a")), PNoAuto(add("b")), PNoAuto(compactAll()), Reader(st("read"), add("r1"))}, Preempt: 2,
 			Why: "Add ‖ Add ‖ CompactAll ‖ reader: four processes, preemption-bounded"},
 		{Name: "S13", Init: "empty", Procs: []procSpec{
@@ -67,6 +69,14 @@ func allScenarios() []*scenario {
 			Why: "crash of either process as a choice at any scheduling point while the other continues"},
 		{Name: "S17-gc-empty", Init: "empty", Procs: []procSpec{P(st("clean"), st("close")), P(add("a"))}, Preempt: -1,
 			Why: "Clean and Close on a stack that is (or may still be) empty ‖ Add"},
+		{Name: "S19-span", Init: "one", Procs: []procSpec{
+			PNoAuto(step{Kind: "addspan", Txns: []string{"a"}, I: 2, J: 1}, step{Kind: "addspan", Txns: []string{"a2"}, I: 2, J: 1}),
+			PNoAuto(add("b"))}, Preempt: -1,
+			Why: "a batch planned over update indices [2,3] and retried unchanged ‖ Add: a table whose range starts at or below the stack's top must be refused"},
+		{Name: "S6q", Init: "three", Procs: []procSpec{PNoAuto(rng(0, 1), add("a"), add("b"), rng(2, 3)), Reader(st("read"), add("r1"), st("read"))}, Preempt: -1,
+			Why: "reader reloads while the other handle compacts BELOW a table the reader keeps, adds on top and compacts the additions: reused readers are not a prefix of the new list"},
+		{Name: "S6q-b2", Init: "three", Procs: []procSpec{PNoAuto(rng(0, 1), add("a"), add("b"), rng(2, 3)), Reader(st("read"), add("r1"), st("read"))}, Preempt: 2,
+			Why: "as S6q with at most 2 preemptions (quick tier)"},
 		{Name: "S16", Init: "three", Procs: []procSpec{PNoAuto(rng(1, 2)), PNoAuto(add("a"))}, Preempt: -1,
 			Why: "partial-range compaction over a tombstone ‖ Add"},
 	}
@@ -85,11 +95,11 @@ func allScenarios() []*scenario {
 }
 
 var quickSets = map[string][]string{
-	"C04": {"S1-empty", "S1-one", "S2", "S5", "S8", "S14", "S9", "S1-one@s256"},
-	"C05": {"S1-one", "S2", "S4", "S4b", "S5", "S7-close", "S7-clean", "S13", "S15-crash", "S16"},
+	"C04": {"S1-empty", "S1-one", "S2", "S5", "S8", "S14", "S9", "S1-one@s256", "S10", "S18-reject", "S19-span"},
+	"C05": {"S1-one", "S2", "S4", "S4b", "S18-reject", "S19-span", "S5", "S7-close", "S7-clean", "S13", "S15-crash", "S16"},
 	"C08": {"S1-one", "S2", "S4b", "S5", "S5b", "S8", "S7-clean"},
-	"C10": {"S6", "S6p", "S6o", "S1-one"},
-	"C16": {"S1-empty", "S1-one", "S2", "S4", "S5", "S7-close", "S7-clean", "S7-clean-compact", "S8", "S10", "S17-gc-empty"},
+	"C10": {"S6", "S6p", "S6o", "S6q-b2", "S1-one"},
+	"C16": {"S1-empty", "S1-one", "S2", "S4", "S4b", "S18-reject", "S5", "S7-close", "S7-clean", "S7-clean-compact", "S8", "S10", "S17-gc-empty"},
 }
 
 func catalogue(prop, tier string) []*scenario {
